@@ -2,6 +2,7 @@
 // One binary serves C01 C03 C05 C06 C10 C11 (and C02/C04 through mutate.h); selected with --prop.
 // Each type runs in a forked child so that a crash is attributed to the case being executed.
 #include <sys/mman.h>
+#include <signal.h>
 #include <sys/wait.h>
 #include <unistd.h>
 
@@ -882,7 +883,25 @@ int main(int argc, char** argv) {
       _exit(R.violations ? 1 : 0);
     }
     int st = 0;
-    waitpid(pid, &st, 0);
+    // wait, watching the child's resident set: a tree under test that allocates without bound or corrupts its heap must
+    // take down this one process (reported as a crash of the case it was executing), not the machine
+    {
+      const long page = sysconf(_SC_PAGESIZE);
+      const long limit_pages = (long)((6ull << 30) / (unsigned long long)page);
+      char statm[64];
+      snprintf(statm, sizeof statm, "/proc/%d/statm", (int)pid);
+      for (;;) {
+        pid_t w = waitpid(pid, &st, WNOHANG);
+        if (w == pid) break;
+        if (w < 0) { st = 0; break; }
+        if (FILE* f = fopen(statm, "r")) {
+          long vm = 0, rss = 0;
+          if (fscanf(f, "%ld %ld", &vm, &rss) == 2 && rss > limit_pages) kill(pid, SIGKILL);
+          fclose(f);
+        }
+        usleep(20000);
+      }
+    }
     if (WIFSIGNALED(st) || (WIFEXITED(st) && WEXITSTATUS(st) > 1)) {
       std::string cs = g_progress + 8;
       if (WIFEXITED(st) && WEXITSTATUS(st) == 3) { rc = 2; continue; }
